@@ -69,12 +69,15 @@ RelOf(c) == CASE c \in Sections -> "sec" [] c \in Symbols -> "sym" [] c \in Prox
               [] c \in Intervals -> "biv" [] c \in Blocks -> "blk" [] c \in Modules -> "mod"
 ParentsOf(c) == IF c \in Modules THEN IRs ELSE RelParents(RelOf(c))
 
+\* expression kinds / second symbols default to SymAddrConst / none when a configuration does not say
+KindOf(e) == IF e \in DOMAIN ExprKind THEN ExprKind[e] ELSE "ac"
+Sym2Of(e) == IF e \in DOMAIN ExprSym2 THEN ExprSym2[e] ELSE NONE
 FieldsOf(h) == IF h \in Modules THEN {"name", "binary_path", "isa", "file_format", "byte_order",
                                       "preferred_addr", "rebase_delta"}
                ELSE IF h \in Sections THEN {"name"}
                ELSE IF h \in Symbols THEN {"at_end"}
                ELSE IF h \in CodeBlocks THEN {"decode_mode"}
-               ELSE IF ExprKind[h] = "aa" THEN {"xoffset", "xscale"} ELSE {"xoffset"}   \* expressions
+               ELSE IF KindOf(h) = "aa" THEN {"xoffset", "xscale"} ELSE {"xoffset"}   \* expressions
 NoShadow == [none |-> TRUE]
 On(f) == <<f, "*">> \in Families
 OnR(f, r) == <<f, "*">> \in Families \/ <<f, r>> \in Families
@@ -664,7 +667,7 @@ Pristine(n) ==
   /\ (IF n \in Intervals THEN addr[n] = NOADDR /\ isz[n] = 0 /\ symx[n] = {} /\ bytes[n] = <<>> ELSE TRUE)
   /\ (IF n \in Blocks THEN off[n] = 0 /\ bsz[n] = 0 ELSE TRUE)
   /\ (IF n \in Symbols THEN sname[n] = DefName /\ pay[n] = NONE
-                              /\ \A e \in Exprs : ExprSym[e] # n /\ ExprSym2[e] # n ELSE TRUE)
+                              /\ \A e \in Exprs : ExprSym[e] # n /\ Sym2Of(e) # n ELSE TRUE)
   /\ (IF n \in TagHolders THEN tags[n] = {} ELSE TRUE)
   /\ (IF n \in ScalHolders THEN \A f \in FieldsOf(n) : scal[n][f] = ScalDef[f] ELSE TRUE)
   /\ (IF n \in Modules THEN entry[n] = NONE ELSE TRUE)
@@ -696,8 +699,8 @@ New(n, p, K) ==
 \* records; repeated fields whose order carries no meaning are sets.  UUIDs are node ids.
 BlockMsg(b) == [uuid |-> b, offset |-> off[b], size |-> bsz[b], kind |-> IF b \in CodeBlocks THEN "code" ELSE "data",
                 decode_mode |-> IF b \in CodeBlocks THEN scal[b]["decode_mode"] ELSE "-"]
-ExprMsg(k, e) == [key |-> k, kind |-> ExprKind[e], sym1 |-> ExprSym[e], sym2 |-> ExprSym2[e],
-                  offset |-> scal[e]["xoffset"], scale |-> IF ExprKind[e] = "aa" THEN scal[e]["xscale"] ELSE "-",
+ExprMsg(k, e) == [key |-> k, kind |-> KindOf(e), sym1 |-> ExprSym[e], sym2 |-> Sym2Of(e),
+                  offset |-> scal[e]["xoffset"], scale |-> IF KindOf(e) = "aa" THEN scal[e]["xscale"] ELSE "-",
                   attrs |-> tags[e]]
 IntervalMsg(v) == [uuid |-> v, has_address |-> addr[v] # NOADDR, address |-> IF addr[v] = NOADDR THEN 0 ELSE addr[v],
                    size |-> isz[v], contents |-> bytes[v], blocks |-> {BlockMsg(b) : b \in kids[v]},
@@ -724,7 +727,7 @@ SelfContained(i) ==
   /\ \A m \in Modules \cap R : entry[m] # NONE => ModOf(entry[m]) = m
   /\ \A v \in Intervals \cap R : \A kv \in symx[v] :
         /\ ExprSym[kv[2]] # NONE /\ ModOf(ExprSym[kv[2]]) = ModOf(v)
-        /\ ExprKind[kv[2]] = "aa" => (ExprSym2[kv[2]] # NONE /\ ModOf(ExprSym2[kv[2]]) = ModOf(v))
+        /\ KindOf(kv[2]) = "aa" => (Sym2Of(kv[2]) # NONE /\ ModOf(Sym2Of(kv[2])) = ModOf(v))
   /\ \A e \in cfg[i] : e[1] \in R /\ e[2] \in R
 \* The harness swaps its objects for the loaded ones, so nothing outside the IR may keep a
 \* reference into it, and an expression object stored twice would come back as two objects.
@@ -757,7 +760,7 @@ RefSites(i) ==
   \cup {Site("entry", m, "-", "-") : m \in {x \in Modules \cap R : entry[x] # NONE}}
   \cup UNION {{Site("edge.src", e[1], e[2], e[3]), Site("edge.tgt", e[1], e[2], e[3])} : e \in cfg[i]}
   \cup UNION {UNION {{Site("expr.sym1", v, ToString(kv[1]), kv[2])}
-                     \cup (IF ExprKind[kv[2]] = "aa" THEN {Site("expr.sym2", v, ToString(kv[1]), kv[2])} ELSE {})
+                     \cup (IF KindOf(kv[2]) = "aa" THEN {Site("expr.sym2", v, ToString(kv[1]), kv[2])} ELSE {})
                      : kv \in symx[v]} : v \in Intervals \cap R}
 \* attached nodes of a kind the reference must not name
 WrongKind(i, s) ==
